@@ -282,3 +282,14 @@ NOT_APPLICABLE = []
 _EXTRA = {'C03': " Serial manager (executor_cls=NonThreadedExecutor, boto3's use_threads=False): Lean model S3V.Serial whose except-clause tables are generated from Task.__call__ / NonThreadedExecutor.submit / BoundedExecutor.submit / SubmissionTask._main; for every plan a manager builds and every outcome of every main (success, ordinary exception, KeyboardInterrupt): result() raises exactly the first failure and succeeds only if no main raised (serial_no_false_success, serial_first_failure_reported); correspondence of the model with the real classes on random plans; exhaustive serial sweep (every request / read / write / file-system position failed once with an ordinary exception and once with Ctrl-C). Found D18 (repaired).", 'C04': " Serial manager (executor_cls=NonThreadedExecutor, boto3's use_threads=False): Lean model S3V.Serial whose except-clause tables are generated from Task.__call__ / NonThreadedExecutor.submit / BoundedExecutor.submit / SubmissionTask._main; for every plan a manager builds and every outcome of every main (success, ordinary exception, KeyboardInterrupt): done is announced and the call returns (serial_future_done), no permit is left for the next transfer to wait for (serial_no_permit_left); serial sweep with a second transfer on the same manager. Found D19 (repaired).", 'C05': " Serial manager (executor_cls=NonThreadedExecutor, boto3's use_threads=False): Lean model S3V.Serial whose except-clause tables are generated from Task.__call__ / NonThreadedExecutor.submit / BoundedExecutor.submit / SubmissionTask._main; for every plan a manager builds and every outcome of every main (success, ordinary exception, KeyboardInterrupt): no main runs after the first failure — no part, no CompleteMultipartUpload — and the failure cleanups ran (serial_nothing_after_failure); serial sweep.", 'C06': " Serial manager (executor_cls=NonThreadedExecutor, boto3's use_threads=False): Lean model S3V.Serial whose except-clause tables are generated from Task.__call__ / NonThreadedExecutor.submit / BoundedExecutor.submit / SubmissionTask._main; for every plan a manager builds and every outcome of every main (success, ordinary exception, KeyboardInterrupt): the rename of a single-request download runs exactly when the GET's main returned normally (serial_rename_only_after_complete_get); serial sweep watching the destination path. Found D18 (repaired).", 'C12': " Serial manager (executor_cls=NonThreadedExecutor, boto3's use_threads=False): Lean model S3V.Serial whose except-clause tables are generated from Task.__call__ / NonThreadedExecutor.submit / BoundedExecutor.submit / SubmissionTask._main; for every plan a manager builds and every outcome of every main (success, ordinary exception, KeyboardInterrupt): every permit taken has been given back (serial_permits_restored); serial sweep checking all manager semaphores. Found D19 (repaired).", 'C02': ' Serial manager: serial_success_means_every_step_ok (Lean) and the exhaustive serial sweep (also retried stream faults, destinations that cannot seek incl. special files given by name); several downloads through one legacy S3Transfer object compared with downloads on objects of their own.', 'C08': ' Serial manager sweep (every fault position, Ctrl-C included) and subscribers whose on_done submits the next transfer; in a hung run every subscriber whose on_done never ran is reported.', 'C09': ' Serial manager sweep incl. destination faults that are TimeoutError / ConnectionError subclasses (must not be retried as stream errors).', 'C16': " End to end: explorer and serial sweep with the judge 'what was written to a destination that cannot seek is at every instant a prefix of the object' (streams and special files, objects smaller and larger than io_chunksize, retried faults).", 'C15': " caller_dict_oracle: one extra_args dict object reused from call to call under both checksum configurations — each transfer's requests equal those of a private-copy run and the library leaves the caller's dict unchanged.", 'C18': ' Legacy front-end: several downloads through one S3Transfer object, some failing locally or on the stream, each compared with the same download on an object of its own.', 'C14': ' The upload correspondence (part bodies of the three input managers vs the model) and the end-to-end upload oracle also run under this property: EntityTooSmall is enforced by the fake service at real scale (threshold above the effective part size and not a multiple of it included).', 'C11': ' Part buffers are also counted by reachability (weak references) at every buffer creation in every run, failed and cancelled ones included: reachable and unclosed buffers <= max_in_memory_upload_chunks + max_submission_concurrency + max_request_concurrency.'}
 for _p, _x in _EXTRA.items():
     TEXTS[_p]['text'] = TEXTS[_p]['text'] + _x
+
+_EXTRA2 = {
+    'C04': " A share of the threaded scenarios raises a BaseException that is not an Exception inside a task; a targeted oracle raises one in the submission thread while parts are in flight (found D20: the transfer was never announced; repaired).",
+    'C08': " Targeted oracle: a non-Exception BaseException in the submission thread while parts are in flight — every on_done must still run (found D20, repaired).",
+    'C05': " Scenarios in which the caller flags finished transfers as failed (TransferFuture.set_exception after done) before shutdown: a completed upload must not be aborted; Lean: cleanups_only_by_announce (no coordinator operation other than announce_done runs a failure cleanup).",
+    'C10': " Component oracle for TaskSemaphore under the scheduler: at most `count` holders at any instant whoever is woken or barges in, nobody blocked for ever, exactly `count` non-blocking acquires succeed afterwards.",
+    'C13': " A preempting stall of the scheduler (virtual time passes while one thread is held at its lock acquisition) with streams taking turns below the limit: no read may be throttled (150 such simulations per quick run).",
+    'C18': " The barrier focus builds the critical situation directly: a multipart copy or upload with parts in flight next to a transfer that fails or is cancelled first, then shutdown / with-exit.",
+}
+for _p, _x in _EXTRA2.items():
+    TEXTS[_p]['text'] = TEXTS[_p]['text'] + _x
